@@ -163,3 +163,37 @@ def r_C28e(root):
         ob("C28", "C28.e", M, "ReferenceResolver.resolve_one_step", "provider call %s under the location-filling handler" % " ".join(ast.unparse(c).split())[:60], ok)
         if not ok: out.append(Finding("C28", "C28.e", M, "ReferenceResolver.resolve_one_step", " ".join(ast.unparse(c).split())[:90], "this provider call is not covered by the handler that gives a location-less TextXError the position and file of the reference: its errors ('name is not unique', 'Unknown object' raised by a provider) reach the user with line, col and filename None", witness="a name defined twice and a reference to it on an attribute without a registered provider"))
     return inst, out
+
+def r_C28f(root):
+    """C28.f  who may write an error's location: the fields line / col / filename / nchar of a caught exception are assigned
+       only by the exception constructors, by TextXMetaModel.process (location of the processed object) and by the
+       resolver's handler in resolve_one_step (location of the reference) — the two places that fill a location-less
+       error *completely*.  A partial fill anywhere else (a provider naming only a file) makes the resolver's
+       'no location at all' test false, and the error reaches the user without line and column."""
+    import glob as _glob, os as _os
+    out = []; inst = 0
+    ALLOWED = {("textx/exceptions.py", None), ("textx/metamodel.py", "TextXMetaModel.process"), ("textx/model.py", "ReferenceResolver.resolve_one_step")}
+    files = sorted(_os.path.relpath(f, root) for f in _glob.glob(_os.path.join(root, "textx", "**", "*.py"), recursive=True))
+    for rel in files:
+        t = load(root, rel)
+        for n in ast.walk(t):
+            if not isinstance(n, ast.Assign): continue
+            tgs = [x for tg in n.targets for x in (tg.elts if isinstance(tg, (ast.Tuple, ast.List)) else [tg])]
+            hit = [x for x in tgs if isinstance(x, ast.Attribute) and x.attr in ("line", "col", "filename", "nchar") and isinstance(x.value, ast.Name) and x.value.id != "self" and any(isinstance(a, ast.ExceptHandler) and a.name == x.value.id for a in ancestors(n))]
+            # (helpers of the allowed sites: parameters named like an error are accepted when the function is called from an allowed handler)
+            if not hit:
+                fn = enclosing_func(n)
+                hit = [x for x in tgs if isinstance(x, ast.Attribute) and x.attr in ("line", "col", "filename", "nchar") and isinstance(x.value, ast.Name) and fn is not None and x.value.id in {a.arg for a in fn.args.args} and x.value.id in ("e", "err", "error", "exc", "exception")]
+            if not hit: continue
+            inst += 1
+            q = qualname(n)
+            ok = (rel, None) in ALLOWED or (rel, q) in ALLOWED
+            if not ok:
+                fn = enclosing_func(n)
+                # an extracted helper of an allowed site
+                callers = [c for c in calls(t) if fn is not None and callee_name(c) == fn.name]
+                ok = bool(callers) and all((rel, qualname(c)) in ALLOWED for c in callers)
+            ob("C28", "C28.f", rel, q, " ".join(ast.unparse(n).split())[:80], ok)
+            if not ok: out.append(Finding("C28", "C28.f", rel, q, " ".join(ast.unparse(n).split())[:90], "an error's location is filled in partly outside the two places that fill it completely: the resolver then finds the error 'located' and does not add the line and column of the reference", witness="PlainNameImportURI; a name defined twice in an imported file"))
+    if inst < 2: raise AnalysisError("location fill-in sites: only %d found (TextXMetaModel.process and resolve_one_step expected)" % inst)
+    return inst, out
